@@ -1,8 +1,725 @@
-//! C06 – not implemented yet.
-use mvlib::Ctx;
-use serde_json::Value;
+//! C06 – every input terminates cleanly: no crash, no hang, output or located diagnostics.
+//!
+//! Pipeline per text: parse -> codegen as `mos build` configures it (only when the parse is
+//! clean, as the CLI does) -> codegen in the language server's configuration (greedy analysis, run
+//! on every tree, also with parse errors, as the server does) -> format -> listing (1 and 8 bytes
+//! per line). Non-termination is decided deterministically with the pass observer (hook H1): a
+//! recurring block of pass digests = cycle; fuel exhausted = unbounded work.
 
-pub fn run(_ctx: &Ctx, _replay: Option<&Value>) -> i32 {
-    eprintln!("C06: engine not implemented yet");
-    2
+use crate::probe::{self, diags_of, Diag, Opts, Stop};
+use crate::textspace::{self, Item};
+use mos_core::formatting::{format, FormattingOptions};
+use mos_core::io::to_listing;
+use mos_core::parser::parse;
+use mvlib::grammar::*;
+use mvlib::isa::Form;
+use mvlib::panics::guard;
+use mvlib::{fnv_str, Ctx, Finding};
+use rayon::prelude::*;
+use serde_json::{json, Value};
+use std::path::Path;
+use std::process::Command;
+
+#[derive(Debug, Default, Clone)]
+pub struct Outcome {
+    /// (stage, signature, detail)
+    pub problems: Vec<(String, String, String)>,
+    pub caps: Vec<String>,
+    pub parse_clean: bool,
+    pub built: bool,
+}
+
+fn check_locations(stage: &str, diags: &[Diag], files: &[(String, String)], out: &mut Outcome) {
+    for d in diags {
+        if let Some((file, line, _col, eline, _ecol)) = &d.loc {
+            let name = Path::new(file)
+                .file_name()
+                .map(|n| n.to_string_lossy().to_string())
+                .unwrap_or_default();
+            match files.iter().find(|(n, _)| *n == name) {
+                None => out.problems.push((
+                    stage.into(),
+                    "location:unknown-file".into(),
+                    format!("diagnostic {:?} points into {:?} which is not a file of the project", d.message, file),
+                )),
+                Some((_, text)) => {
+                    let lines = text.split('\n').count().max(1);
+                    if *line >= lines || *eline >= lines + 1 {
+                        out.problems.push((
+                            stage.into(),
+                            "location:beyond-file".into(),
+                            format!("diagnostic {:?} at line {} of a {}-line file", d.message, line + 1, lines),
+                        ));
+                    }
+                }
+            }
+        }
+    }
+}
+
+/// Runs the whole pipeline on one project (first file = entry).
+pub fn pipeline(files: &[(String, String)], fuel: i64) -> Outcome {
+    let mut out = Outcome::default();
+    crate::util::watchdog::enter(&files[0].1, "parse");
+    let out2 = pipeline_inner(files, fuel, &mut out);
+    crate::util::watchdog::leave();
+    let _ = out2;
+    out
+}
+
+fn pipeline_inner(files: &[(String, String)], fuel: i64, out: &mut Outcome) {
+    let src = textspace::by_name(files);
+    let main = files[0].0.clone();
+    let parsed = guard(move || {
+        let (tree, errs) = parse(Path::new(&main), src);
+        let d = diags_of(&errs);
+        (tree, d)
+    });
+    let (tree, pdiags) = match parsed {
+        Ok(x) => x,
+        Err(p) => {
+            out.problems.push(("parse".into(), format!("panic:{}", p.site), p.message));
+            return;
+        }
+    };
+    check_locations("parse", &pdiags, files, out);
+    out.parse_clean = pdiags.is_empty();
+    let tree = match tree {
+        Some(t) => t,
+        None => {
+            if pdiags.is_empty() {
+                out.problems.push(("parse".into(), "silent:no-tree".into(), "no tree and no diagnostic".into()));
+            }
+            return;
+        }
+    };
+    for (stage, greedy, pc) in [("codegen-build", false, 0x2000usize), ("codegen-lsp", true, 0xc000)] {
+        crate::util::watchdog::stage(stage);
+        if !greedy && !pdiags.is_empty() {
+            // `mos build` stops after a parse error
+            continue;
+        }
+        let opts = Opts {
+            pc,
+            greedy,
+            move_macro: false,
+            keep_ctx: true,
+            fuel,
+            max_passes: 64,
+            ..Default::default()
+        };
+        match probe::codegen_tree(tree.clone(), &opts) {
+            Err(p) => out.problems.push((stage.into(), format!("panic:{}", p.site), p.message)),
+            Ok(g) => {
+                match g.stop {
+                    Stop::None => {}
+                    Stop::Cycle { first, again } => out.problems.push((
+                        stage.into(),
+                        "cycle".into(),
+                        format!("pass states {}.. recur from pass {} on: the pass loop never terminates", first, again),
+                    )),
+                    Stop::Fuel => out.problems.push((
+                        stage.into(),
+                        "fuel".into(),
+                        format!("more than {} tokens emitted for a tiny input", fuel),
+                    )),
+                    Stop::PassBudget(n) => out.caps.push(format!("{}: still changing after {} passes, no cycle seen", stage, n)),
+                }
+                if g.stop != Stop::None {
+                    continue;
+                }
+                check_locations(stage, &g.diags, files, out);
+                if g.diags.is_empty() {
+                    match &g.ctx {
+                        None => out.problems.push((stage.into(), "silent:no-binary".into(), "no diagnostics and no code".into())),
+                        Some(ctx) => {
+                            if !greedy {
+                                out.built = true;
+                            }
+                            crate::util::watchdog::stage("listing");
+                            for n in [1usize, 8] {
+                                let r = guard(|| to_listing(ctx, n).map(|m| m.len()).map_err(|e| diags_of(&e)));
+                                match r {
+                                    Err(p) => out.problems.push((format!("listing-{}", n), format!("panic:{}", p.site), p.message)),
+                                    Ok(Err(d)) => check_locations("listing", &d, files, out),
+                                    Ok(Ok(_)) => {}
+                                }
+                            }
+                        }
+                    }
+                }
+            }
+        }
+    }
+    crate::util::watchdog::stage("format");
+    if pdiags.is_empty() {
+        let t = tree.clone();
+        let names: Vec<std::path::PathBuf> = tree.files.keys().cloned().collect();
+        for name in names {
+            let t2 = t.clone();
+            let r = guard(move || format(name, t2, FormattingOptions::default()).len());
+            if let Err(p) = r {
+                out.problems.push(("format".into(), format!("panic:{}", p.site), p.message));
+            }
+        }
+    }
+}
+
+/// Signature of a pipeline problem: a panic is identified by its site alone (stage and input
+/// family go into the description); non-termination by the construct family.
+fn problem_sig(sig: &str, stage: &str, family: &str) -> String {
+    if sig.starts_with("panic:") {
+        sig.to_string()
+    } else if sig == "fuel" || sig == "cycle" {
+        format!("{}:{}", sig, family)
+    } else {
+        format!("{}@{}", sig, stage)
+    }
+}
+
+fn report(ctx: &Ctx, origin: &str, files: &[(String, String)], out: &Outcome) {
+    for c in &out.caps {
+        ctx.count("pass_budget_cap");
+        let _ = c;
+    }
+    for (stage, sig, detail) in &out.problems {
+        let fm: serde_json::Map<String, Value> = files.iter().map(|(n, t)| (n.clone(), json!(t))).collect();
+        ctx.finding(Finding::new(
+            problem_sig(sig, stage, origin),
+            format!("{}: {} — input {:?}", stage, detail, files[0].1),
+            json!({"kind": "pipeline", "origin": origin, "entry": files[0].0, "files": fm}),
+        ));
+    }
+    ctx.count(if out.built {
+        "built"
+    } else if out.parse_clean {
+        "parse_clean_rejected"
+    } else {
+        "parse_diagnosed"
+    });
+}
+
+fn run_item(ctx: &Ctx, item: &Item, fuel: i64) {
+    let mut files = vec![("main.asm".to_string(), item.text.to_string())];
+    files.extend(item.side.iter().cloned());
+    ctx.eval(|| json!(item.text));
+    let out = pipeline(&files, fuel);
+    if out.parse_clean {
+        ctx.nontrivial(fnv_str(item.text));
+    }
+    report(ctx, item.origin, &files, &out);
+}
+
+fn int_values() -> Vec<String> {
+    let mut v: Vec<String> = vec![
+        "0", "1", "2", "255", "256", "65535", "65536", "2147483648", "4294967296",
+        "9223372036854775807", "0-1", "0-2", "0-256", "0-9223372036854775807", "0-9223372036854775807-1",
+        "$7fffffffffffffff", "$ffffffffffffffff", "%1111111111111111111111111111111111111111111111111111111111111111",
+        "63", "64", "65", "0-64",
+    ]
+    .into_iter()
+    .map(String::from)
+    .collect();
+    for digits in [20usize, 40, 100] {
+        v.push("9".repeat(digits));
+        v.push(format!("${}", "f".repeat(digits)));
+        v.push(format!("%{}", "1".repeat(digits)));
+    }
+    v
+}
+
+fn int_programs() -> Vec<(String, String)> {
+    let vals = int_values();
+    let mut out = vec![];
+    for n in &vals {
+        for (k, t) in [
+            ("align", format!("nop\n.align {}\nnop", n)),
+            ("loop-empty", format!(".loop {} {{ }}", n)),
+            ("loop-nop", format!(".loop {} {{ nop }}", n)),
+            ("pcset", format!("* = {}\nnop", n)),
+            ("shl", format!(".dword 1 << {}", n)),
+            ("shr", format!(".dword 1 >> ({})", n)),
+            ("byte", format!(".byte {}", n)),
+            ("imm", format!("lda #{}", n)),
+            ("abs", format!("lda {}", n)),
+            ("neg", format!(".dword -({})", n)),
+            ("mul", format!(".dword ({}) * ({})", n, n)),
+            ("add", format!(".dword ({}) + ({})", n, n)),
+            ("seg-start", format!(".define segment {{ name = \"s\" start = {} }}\nnop", n)),
+            ("seg-pc", format!(".define segment {{ name = \"s\" start = $1000 pc = {} }}\nl: jmp l", n)),
+            ("bank-size", format!(".define bank {{ name = \"b\" size = {} fill = 0 }}\n.define segment {{ name = \"s\" start = $1000 bank = \"b\" }}\nnop", n)),
+            ("bank-fill", format!(".define bank {{ name = \"b\" size = 4 fill = {} }}\n.define segment {{ name = \"s\" start = $1000 bank = \"b\" }}\nnop", n)),
+            ("if", format!(".if {} {{ nop }} else {{ brk }}", n)),
+        ] {
+            out.push((k.to_string(), t));
+        }
+        for m in &vals {
+            out.push(("div".into(), format!(".dword ({}) / ({})", m, n)));
+            out.push(("mod".into(), format!(".dword ({}) % ({})", m, n)));
+        }
+    }
+    // names
+    for name in ["a.b", "a b", "", "1a", "-", "super", "a-b", "é"] {
+        out.push(("segment-name".into(), format!(".define segment {{ name = \"{}\" start = $1000 }}\nnop", name)));
+        out.push(("bank-name".into(), format!(".define bank {{ name = \"{}\" }}\nnop", name)));
+        out.push(("test-name".into(), format!(".test \"{}\" {{ brk }}", name)));
+        out.push(("segment-use".into(), format!(".segment \"{}\" {{ nop }}", name)));
+    }
+    out
+}
+
+/// (d) convergence stress.
+fn stress_programs() -> Vec<(String, Vec<Stmt>)> {
+    let mut out = vec![];
+    // anti-monotone operand at the zero-page boundary
+    for base in ["$00fc", "$00fd", "$00fe", "$00ff"] {
+        for k in 0..4 {
+            let mut p = vec![Stmt::PcSet(lit(base))];
+            for _ in 0..=k {
+                p.push(ins("lda", Form::Plain, bin(lit("$200"), "-", id("fwd"))));
+            }
+            p.push(label("fwd"));
+            p.push(imp("nop"));
+            out.push(("anti-monotone".to_string(), p));
+        }
+    }
+    // mutually dependent segment starts
+    for n in 2..=3 {
+        let names = ["sa", "sb", "sc"];
+        let mut p = vec![];
+        for i in 0..n {
+            p.push(Stmt::Define {
+                kind: "segment",
+                pairs: vec![
+                    ("name".into(), string(names[i])),
+                    ("start".into(), id(&format!("segments.{}.end", names[(i + 1) % n]))),
+                ],
+            });
+        }
+        for i in 0..n {
+            p.push(Stmt::Segment {
+                name: string(names[i]),
+                block: Some(vec![imp("nop")]),
+            });
+        }
+        out.push(("segment-cycle".to_string(), p));
+    }
+    // forward branches slightly out of / in range, nested in loops
+    for pad in 120..=132 {
+        for loops in 1..=2 {
+            let mut body = vec![ins("bne", Form::Plain, id("fwd"))];
+            for _ in 0..pad {
+                body.push(imp("nop"));
+            }
+            let mut inner = Stmt::Braces(vec![
+                Stmt::Loop { count: num(loops), body: vec![Stmt::Braces(vec![ins("beq", Form::Plain, id("+")), imp("nop")])] },
+            ]);
+            for _ in 1..loops {
+                inner = Stmt::Loop { count: num(2), body: vec![inner] };
+            }
+            let mut p = body;
+            p.push(inner);
+            p.push(label("fwd"));
+            p.push(imp("rts"));
+            out.push(("near-limit-branch".to_string(), p));
+        }
+    }
+    // label whose position depends on a conditional that depends on the label
+    for t in ["$2003", "$2004", "$2005"] {
+        out.push((
+            "self-dependent-if".to_string(),
+            vec![
+                Stmt::If { cond: bin(id("l"), "==", lit(t)), then: vec![imp("nop")], els: None },
+                ins("jmp", Form::Plain, id("l")),
+                label("l"),
+            ],
+        ));
+        out.push((
+            "self-dependent-loop".to_string(),
+            vec![
+                Stmt::Loop {
+                    count: bin(paren(bin(id("l"), "==", lit(t))), "+", num(1)),
+                    body: vec![imp("nop")],
+                },
+                ins("jmp", Form::Plain, id("l")),
+                label("l"),
+            ],
+        ));
+    }
+    out
+}
+
+fn graph_files(n: usize, code: u64, with_missing: bool) -> Vec<(String, String)> {
+    // bit (i * width + j): file i imports file j; j == n means the missing file
+    let width = if with_missing { n + 1 } else { n };
+    let mut files = vec![];
+    for i in 0..n {
+        let mut text = String::new();
+        for j in 0..width {
+            if code >> (i * width + j) & 1 == 1 {
+                if j == n {
+                    text.push_str(".import * from \"missing.asm\"\n");
+                } else {
+                    text.push_str(&format!(".import * as ns{} from \"f{}.asm\"\n", j, j));
+                }
+            }
+        }
+        text.push_str(&format!("l{}: nop\n", i));
+        files.push((format!("f{}.asm", i), text));
+    }
+    files
+}
+
+fn graph_class(n: usize, code: u64, with_missing: bool) -> String {
+    let width = if with_missing { n + 1 } else { n };
+    let edge = |i: usize, j: usize| code >> (i * width + j) & 1 == 1;
+    // reachable from f0
+    let mut reach = vec![false; n];
+    let mut stack = vec![0usize];
+    reach[0] = true;
+    while let Some(i) = stack.pop() {
+        for j in 0..n {
+            if edge(i, j) && !reach[j] {
+                reach[j] = true;
+                stack.push(j);
+            }
+        }
+    }
+    let self_loop = (0..n).any(|i| reach[i] && edge(i, i));
+    // cycle among reachable
+    let mut cyc = false;
+    for s in 0..n {
+        if !reach[s] {
+            continue;
+        }
+        let mut seen = vec![false; n];
+        let mut st: Vec<usize> = (0..n).filter(|j| edge(s, *j)).collect();
+        while let Some(i) = st.pop() {
+            if i == s {
+                cyc = true;
+                break;
+            }
+            if seen[i] {
+                continue;
+            }
+            seen[i] = true;
+            for j in 0..n {
+                if edge(i, j) {
+                    st.push(j);
+                }
+            }
+        }
+    }
+    if self_loop {
+        "self-import".into()
+    } else if cyc {
+        "import-cycle".into()
+    } else {
+        "acyclic".into()
+    }
+}
+
+/// Children run the pipeline on a 4 MiB thread: a runaway recursion then overflows quickly
+/// (the process aborts, which the parent classifies) instead of crawling through a deep stack.
+fn on_small_stack(files: Vec<(String, String)>) -> Outcome {
+    std::thread::Builder::new()
+        .stack_size(4 * 1024 * 1024)
+        .spawn(move || pipeline(&files, 300_000))
+        .unwrap()
+        .join()
+        .unwrap_or_default()
+}
+
+/// Child mode: `mvcore C06 --graph n code missing` – prints one JSON line.
+fn graph_child(n: usize, code: u64, with_missing: bool) -> i32 {
+    let files = graph_files(n, code, with_missing);
+    let out = on_small_stack(files);
+    let probs: Vec<Value> = out
+        .problems
+        .iter()
+        .map(|(a, b, c)| json!([a, b, c]))
+        .collect();
+    println!("{}", json!({"problems": probs, "built": out.built, "parse_clean": out.parse_clean}));
+    0
+}
+
+/// Child mode: `mvcore C06 --text <program>` – prints one JSON line.
+fn text_child(text: &str) -> i32 {
+    let files = vec![("main.asm".to_string(), text.to_string())];
+    let out = on_small_stack(files);
+    let probs: Vec<Value> = out
+        .problems
+        .iter()
+        .map(|(a, b, c)| json!([a, b, c]))
+        .collect();
+    println!("{}", json!({"problems": probs, "built": out.built, "parse_clean": out.parse_clean, "caps": out.caps}));
+    0
+}
+
+/// Runs one single-file program in a child process (allocation failure and stack overflow
+/// abort the process and cannot be caught in-process).
+fn run_isolated(ctx: &Ctx, origin: &str, kind: &str, text: &str) {
+    let exe = std::env::current_exe().unwrap();
+    ctx.eval(|| json!(text));
+    ctx.nontrivial(fnv_str(text));
+    let case = json!({"kind": "pipeline", "origin": origin, "entry": "main.asm", "files": {"main.asm": text}});
+    match Command::new(&exe).arg("C06").arg("--text").arg(text).output() {
+        Err(e) => ctx.cap(format!("cannot spawn child: {}", e)),
+        Ok(o) => {
+            if !o.status.success() {
+                use std::os::unix::process::ExitStatusExt;
+                let err = String::from_utf8_lossy(&o.stderr);
+                let why = if err.contains("overflowed its stack") {
+                    "stack-overflow"
+                } else if err.contains("memory allocation of") {
+                    "allocation-failure"
+                } else if o.status.code() == Some(3) {
+                    "hang"
+                } else {
+                    "abnormal-exit"
+                };
+                ctx.finding(Finding::new(
+                    format!("abort:{}:{}", why, kind),
+                    format!("process died (signal {:?}, status {:?}) on {:?}: {}", o.status.signal(), o.status.code(), text, err.lines().last().unwrap_or("")),
+                    case,
+                ));
+                return;
+            }
+            let line = String::from_utf8_lossy(&o.stdout);
+            if let Ok(v) = serde_json::from_str::<Value>(line.trim()) {
+                ctx.count(if v["built"] == true { "isolated_built" } else { "isolated_rejected" });
+                for p in v["problems"].as_array().cloned().unwrap_or_default() {
+                    ctx.finding(Finding::new(
+                        problem_sig(p[1].as_str().unwrap_or("?"), p[0].as_str().unwrap_or("?"), kind),
+                        format!("{}: {} — input {:?}", p[0].as_str().unwrap_or(""), p[2].as_str().unwrap_or(""), text),
+                        case.clone(),
+                    ));
+                }
+            }
+        }
+    }
+}
+
+fn run_graphs(ctx: &Ctx, n: usize, with_missing: bool) {
+    let width = if with_missing { n + 1 } else { n };
+    let total: u64 = 1 << (n * width);
+    let exe = std::env::current_exe().unwrap();
+    (0..total).into_par_iter().for_each(|code| {
+        let files = graph_files(n, code, with_missing);
+        ctx.eval(|| json!({"import_graph": {"files": n, "code": code}}));
+        ctx.nontrivial(fnv_str(&format!("g{}:{}:{}", n, code, with_missing)));
+        let outp = Command::new(&exe)
+            .arg("C06")
+            .arg("--graph")
+            .arg(n.to_string())
+            .arg(code.to_string())
+            .arg(if with_missing { "1" } else { "0" })
+            .output();
+        let fm: serde_json::Map<String, Value> = files.iter().map(|(n, t)| (n.clone(), json!(t))).collect();
+        let case = json!({"kind": "pipeline", "origin": "import-graph", "entry": "f0.asm", "files": fm});
+        let class = graph_class(n, code, with_missing);
+        match outp {
+            Err(e) => ctx.cap(format!("cannot spawn child: {}", e)),
+            Ok(o) => {
+                if !o.status.success() {
+                    use std::os::unix::process::ExitStatusExt;
+                    let sig = o.status.signal();
+                    let err = String::from_utf8_lossy(&o.stderr);
+                    let why = if err.contains("overflowed its stack") {
+                        "stack-overflow"
+                    } else {
+                        "abnormal-exit"
+                    };
+                    ctx.finding(Finding::new(
+                        format!("abort:{}:{}", why, class),
+                        format!("process died (signal {:?}, status {:?}) on an import graph of class {}: {}", sig, o.status.code(), class, err.lines().next().unwrap_or("")),
+                        case,
+                    ));
+                    return;
+                }
+                let line = String::from_utf8_lossy(&o.stdout);
+                if let Ok(v) = serde_json::from_str::<Value>(line.trim()) {
+                    ctx.count(&format!("graphs_{}", class));
+                    for p in v["problems"].as_array().cloned().unwrap_or_default() {
+                        ctx.finding(Finding::new(
+                            problem_sig(p[1].as_str().unwrap_or("?"), p[0].as_str().unwrap_or("?"), &class),
+                            format!("import graph ({}): {}", class, p[2].as_str().unwrap_or("")),
+                            case.clone(),
+                        ));
+                    }
+                }
+            }
+        }
+    });
+}
+
+fn real_binary_cases(ctx: &Ctx) {
+    let bin = std::env::var("MOS_BIN").unwrap_or_else(|_| "/verif/.build/bin/release/mos".into());
+    if !Path::new(&bin).exists() {
+        ctx.note("real binary not available: invalid UTF-8 / unreadable / directory-entry cases skipped");
+        return;
+    }
+    let root = ctx.verif_root.join(".build/scratch/c06").join(std::process::id().to_string());
+    let cases: Vec<(&str, Box<dyn Fn(&Path)>)> = vec![
+        ("invalid-utf8", Box::new(|d: &Path| std::fs::write(d.join("main.asm"), b"lda #1\n\xff\xfe\nnop").unwrap())),
+        ("invalid-utf8-import", Box::new(|d: &Path| {
+            std::fs::write(d.join("main.asm"), b".import * from \"o.asm\"\nnop").unwrap();
+            std::fs::write(d.join("o.asm"), b"\xc3\x28").unwrap();
+        })),
+        ("entry-is-directory", Box::new(|d: &Path| std::fs::create_dir(d.join("main.asm")).unwrap())),
+        ("entry-missing", Box::new(|_d: &Path| {})),
+        ("import-is-directory", Box::new(|d: &Path| {
+            std::fs::write(d.join("main.asm"), b".import * from \"o.asm\"\nnop").unwrap();
+            std::fs::create_dir(d.join("o.asm")).unwrap();
+        })),
+        ("unreadable", Box::new(|d: &Path| {
+            use std::os::unix::fs::PermissionsExt;
+            std::fs::write(d.join("main.asm"), b"nop").unwrap();
+            std::fs::set_permissions(d.join("main.asm"), std::fs::Permissions::from_mode(0o000)).unwrap();
+        })),
+        ("bad-toml", Box::new(|d: &Path| {
+            std::fs::write(d.join("main.asm"), b"nop").unwrap();
+            std::fs::write(d.join("mos.toml"), b"[build\nentry=").unwrap();
+        })),
+        ("file-directive-missing", Box::new(|d: &Path| std::fs::write(d.join("main.asm"), b".file \"nope.bin\"").unwrap())),
+    ];
+    for (i, (name, setup)) in cases.iter().enumerate() {
+        let dir = root.join(format!("{}", i));
+        let _ = std::fs::remove_dir_all(&dir);
+        std::fs::create_dir_all(&dir).unwrap();
+        setup(&dir);
+        for sub in ["build", "format"] {
+            ctx.eval(|| json!({"real_binary": name, "subcommand": sub}));
+            ctx.nontrivial(fnv_str(&format!("real:{}:{}", name, sub)));
+            let o = Command::new(&bin)
+                .args(["-e", "Short", "--no-color", sub])
+                .current_dir(&dir)
+                .output();
+            match o {
+                Err(e) => ctx.cap(format!("cannot run mos: {}", e)),
+                Ok(o) => {
+                    use std::os::unix::process::ExitStatusExt;
+                    let code = o.status.code();
+                    let text = format!("{}{}", String::from_utf8_lossy(&o.stdout), String::from_utf8_lossy(&o.stderr));
+                    // root may read 0o000 files: then the build simply succeeds
+                    let clean = match code {
+                        Some(0) => true,
+                        Some(1) => !text.contains("panicked at"),
+                        _ => false,
+                    };
+                    if !clean || o.status.signal().is_some() {
+                        ctx.finding(Finding::new(
+                            format!("abort:real-binary:{}:{}", name, sub),
+                            format!("`mos {}` on {}: status {:?} signal {:?}: {}", sub, name, code, o.status.signal(), text.lines().find(|l| l.contains("panicked")).unwrap_or("")),
+                            json!({"kind": "real-binary", "case": name, "subcommand": sub}),
+                        ));
+                    }
+                }
+            }
+        }
+        // restore permissions so the directory can be removed
+        use std::os::unix::fs::PermissionsExt;
+        let _ = std::fs::set_permissions(dir.join("main.asm"), std::fs::Permissions::from_mode(0o644));
+    }
+    let _ = std::fs::remove_dir_all(&root);
+}
+
+fn start_watchdog() {
+    crate::util::watchdog::start(
+        10.0,
+        Box::new(|text, stage| {
+            eprintln!("[c06 hang] stage={} text={:?}", stage, text);
+            if let Ok(j) = std::env::var("C06_JOURNAL") {
+                use std::io::Write;
+                if let Ok(mut f) = std::fs::OpenOptions::new().create(true).append(true).open(j) {
+                    let _ = writeln!(f, "{}", json!({"stage": stage, "text": text}));
+                }
+            }
+        }),
+    );
+}
+
+pub fn run(ctx: &Ctx, replay: Option<&Value>, rest: &[String]) -> i32 {
+    if rest.len() >= 2 && rest[0] == "--text" {
+        start_watchdog();
+        return text_child(&rest[1]);
+    }
+    if rest.len() >= 4 && rest[0] == "--graph" {
+        return graph_child(rest[1].parse().unwrap(), rest[2].parse().unwrap(), rest[3] == "1");
+    }
+    if let Some(case) = replay {
+        if case["kind"] == "real-binary" {
+            println!("real-binary case {}: re-run `./check C06`", case["case"]);
+            return 0;
+        }
+        let entry = case["entry"].as_str().unwrap_or("main.asm").to_string();
+        let mut files: Vec<(String, String)> = vec![];
+        if let Some(m) = case["files"].as_object() {
+            if let Some(t) = m.get(&entry) {
+                files.push((entry.clone(), t.as_str().unwrap_or("").to_string()));
+            }
+            for (k, v) in m {
+                if *k != entry {
+                    files.push((k.clone(), v.as_str().unwrap_or("").to_string()));
+                }
+            }
+        }
+        println!("replaying pipeline on {:?} (a stack overflow will kill this process)", files);
+        let out = pipeline(&files, 300_000);
+        println!("{:#?}", out);
+        return 0;
+    }
+    let thorough = ctx.tier.is_thorough();
+    let fuel = 300_000;
+    start_watchdog();
+    // (a) text spaces of C05 through the whole pipeline
+    let syn = textspace::synthetic_corpus();
+    let f = |item: Item| run_item(ctx, &item, fuel);
+    textspace::single_edits(&syn, &textspace::edit_chars(thorough), &f);
+    ctx.set("after_synthetic_edits", json!(ctx.evals()));
+    eprintln!("[c06] synthetic edits done: {} evals, {:.1}s", ctx.evals(), ctx.wall());
+    let ex = textspace::example_corpus();
+    let small: Vec<_> = ex.iter().filter(|e| thorough || e.name == "ex-unit-testing").cloned().collect();
+    if thorough {
+        textspace::single_edits(&small, &[')', '}', '{', '\r', '"', '/', '#', '.', '0', 'é'], &f);
+    } else {
+        textspace::single_edits(&small, &[')', '}', '\r', '"'], &f);
+    }
+    ctx.set("after_example_edits", json!(ctx.evals()));
+    eprintln!("[c06] example edits done: {} evals, {:.1}s", ctx.evals(), ctx.wall());
+    textspace::token_strings(if thorough { 4 } else { 3 }, &f);
+    ctx.set("after_token_strings", json!(ctx.evals()));
+    eprintln!("[c06] token strings done: {} evals, {:.1}s", ctx.evals(), ctx.wall());
+    // (b) integer sweep
+    let ints = int_programs();
+    ctx.set("integer_programs", json!(ints.len()));
+    ints.par_iter().for_each(|(kind, text)| run_isolated(ctx, "integers", kind, text));
+    eprintln!("[c06] integers done: {} evals, {:.1}s", ctx.evals(), ctx.wall());
+    // (d) convergence stress
+    let stress = stress_programs();
+    ctx.set("stress_programs", json!(stress.len()));
+    stress.par_iter().for_each(|(kind, prog)| run_isolated(ctx, "stress", kind, &program_text(prog)));
+    eprintln!("[c06] stress done: {} evals, {:.1}s", ctx.evals(), ctx.wall());
+    // (c) import graphs, one child process per graph (a stack overflow cannot be caught)
+    run_graphs(ctx, 2, true);
+    run_graphs(ctx, 3, thorough);
+    if thorough {
+        run_graphs(ctx, 4, false);
+    }
+    ctx.set("after_import_graphs", json!(ctx.evals()));
+    eprintln!("[c06] import graphs done: {} evals, {:.1}s", ctx.evals(), ctx.wall());
+    // (e)
+    real_binary_cases(ctx);
+    ctx.finish(
+        "exploration",
+        "(a) every single-character edit of the production-covering corpus and (reduced) of the examples, all token strings up to length 3/4, each pushed through parse -> codegen(build) -> codegen(language-server mode) -> format -> listing(1, 8); (b) 17 directive/operator positions x 31 integer arguments incl. 0, negatives, 2^63-1 and literals of 20/40/100 digits in each radix, all pairs for / and %; names with dots/spaces; (c) all import graphs over 2 and 3 files (each file may import any subset incl. itself and a missing file; 4 files without missing file in thorough), one child process per graph; (d) convergence stress programs; (e) invalid UTF-8 / directory / missing / unreadable files through the real binary. Non-termination is decided by recurring pass-state digests and a fuel counter, never by a clock. non-trivial = distinct input that parses without diagnostics (so that code generation, formatting and listing run) or any import-graph / integer / stress case",
+        true,
+        &[
+            "not all byte strings: single edits of a corpus, short token strings, finite menus",
+            "pass budget 64: a run that is still changing without a recurring state is reported as a cap, not a verdict",
+            "fuel 300,000 emitted tokens/scopes per assembly pass (a 64 KiB loop of single-byte instructions needs 131,072)",
+            "release arithmetic profile (debug-only overflow panics are not verdicts)",
+            "a stack overflow in the in-process sweeps would kill the engine (machinery exit); only import graphs are isolated in child processes",
+        ],
+    )
 }
